@@ -38,8 +38,34 @@ PROFILES = {
     "perthread": dict(p_fail_body=0.12, p_fail_hook=0.04, p_fail_fx=0.10, p_fail_td=0.08, kinds=RAISE_KINDS,
                       p_stop=0.05, p_force=0.1, p_perthread=0.8, p_ties=0.0, p_thread=0.06, need_perthread=True),
     "valid-clean": dict(p_fail_body=0.0, p_fail_hook=0.0, p_fail_fx=0.0, p_fail_td=0.0, kinds=[],
-                        p_stop=0.1, p_force=0.15, p_perthread=0.12, p_ties=0.0, p_thread=0.10, need_perthread=False),
+                        p_stop=0.1, p_force=0.15, p_perthread=0.12, p_ties=0.0, p_thread=0.10, need_perthread=False,
+                        p_thread_base=0.0),
+    # per-thread fixtures (evaluated at their first use by a worker, INSIDE the test task: `_prepare_test_args`) whose
+    # setup fails — mostly by raising AbortSuite / AbortAllTests — while tests that do not use them are still to start
+    "perthread-abort": dict(p_fail_body=0.08, p_fail_hook=0.04, p_fail_fx=0.06, p_fail_td=0.06, kinds=RAISE_KINDS,
+                            p_stop=0.05, p_force=0.1, p_perthread=0.8, p_ties=0.0, p_thread=0.06, need_perthread=True,
+                            p_fail_ptfx=0.6, pt_kinds=["AbortSuite", "AbortAllTests", "AbortAllTests", "AbortTest", "exc"],
+                            p_use_pt=0.45),
 }
+
+# step descriptions the API accepts like any other: blank, with line breaks, very long ("" = an untitled step is added
+# when the session treats it as a step: see `empty_step_ok`)
+ODD_STEPS = [" ", "\t", "two\nlines", "\nleading line break", "trailing line break\n", "long " + "x" * 300]
+_EMPTY_STEP_OK = []
+
+
+def empty_step_ok():
+    """does the real Session treat `set_step("")` as a step like any other (StepStart AND StepEnd)?  The unchanged
+    session.py tests the description's truth value (`if self.cursor.step:`): finding D39 (C07).  While that is so,
+    generated scripts do not use "" (hand-written corpus witnesses do); once repaired they do."""
+    if not _EMPTY_STEP_OK:
+        try:
+            from props._session import empty_step_is_a_step
+            _EMPTY_STEP_OK.append(bool(empty_step_is_a_step()))
+        except Exception:
+            _EMPTY_STEP_OK.append(False)
+    return _EMPTY_STEP_OK[0]
+
 
 
 # ------------------------------------------------------------------------------------------------
@@ -253,8 +279,10 @@ def check_valid(project):
             elif a["a"] == "raise":
                 if a["kind"] not in RAISE_KINDS or (a.get("sub") and a["kind"] == "exc"):
                     raise Invalid("raise kind")
-                if a.get("base") and (a["kind"] != "exc" or in_thread or a["base"] not in BASE_EXCEPTIONS):
+                if a.get("base") and (a["kind"] != "exc" or a["base"] not in BASE_EXCEPTIONS):
                     raise Invalid("BaseException raise")
+                if a.get("args") and (a["kind"] == "exc" or a["args"] not in ABORT_ARGS):
+                    raise Invalid("Abort* argument shape")
     for unit, sc in scripts_of(project):
         walk(sc, False, 0)
     if not (1 <= project["nb_threads"] <= 8):
@@ -285,6 +313,8 @@ def _benign_act(rng, cfg, depth, steps, wdepth=0):
         # of the previous one of the script
         if not (steps[0] and rng.random() < 0.45):
             steps[0] += 1
+        if rng.random() < cfg.get("p_odd_step", 0.10):
+            return {"a": "step", "d": rng.choice(ODD_STEPS + ([""] * 3 if empty_step_ok() else []))}
         return {"a": "step", "d": "step %d" % steps[0]}
     if r < 0.75:
         return {"a": "url"}
@@ -305,6 +335,10 @@ def _benign_act(rng, cfg, depth, steps, wdepth=0):
         if rng.random() < 0.3:
             # held between two of its own acts: lets threads of other tests emit in between
             inner.insert(rng.randint(1, len(inner)), {"a": "gate"})
+        if rng.random() < cfg.get("p_thread_base", 0.18):
+            # the thread's target does not return: sys.exit() (the regular way of ending a thread from the inside), a
+            # GeneratorExit, a project's own BaseException — after what it has logged so far
+            inner.append({"a": "raise", "kind": "exc", "base": rng.choice(BASE_EXCEPTIONS)})
         act = {"a": "thread", "script": inner}
         if rng.random() < 0.4:
             # an explicit thread name, the same in several tests (names say nothing about identity)
@@ -314,6 +348,9 @@ def _benign_act(rng, cfg, depth, steps, wdepth=0):
 
 
 BASE_EXCEPTIONS = ["SystemExit", "GeneratorExit", "CustomBase"]
+# what an Abort* is constructed with (`"args"` of a raise act; absent = one message string): no argument at all, the
+# exception that was caught (`raise lcc.AbortTest(e)`), a number (`AbortSuite(404)`), a message and a code, two strings
+ABORT_ARGS = ["none", "exc", "int", "two", "twostr"]
 
 
 def _failing_act(rng, kinds):
@@ -326,9 +363,13 @@ def _failing_act(rng, kinds):
     act = {"a": "raise", "kind": kind}
     if kind != "exc" and rng.random() < 0.4:
         act["sub"] = True         # class EnvironmentDown(lcc.AbortAllTests): a project's own exception type
+    if kind != "exc" and rng.random() < 0.45:
+        act["args"] = rng.choice(ABORT_ARGS)      # `raise lcc.AbortTest(e)`, `AbortSuite(404)`, `AbortAllTests()`, two arguments
     if kind == "exc" and rng.random() < 0.3:
         # not an `Exception`: sys.exit() in user code, a generator closed under it, a project's own BaseException
-        # (same outcome as any unexpected exception; never inside an lcc.Thread, whose target Python lets die silently)
+        # (in a unit of the task's own thread: same outcome as any unexpected exception; in the target of an lcc.Thread:
+        # `Thread.run` only catches `Exception` — nothing is logged, the thread's step is ended by the `finally`, the
+        # thread dies (SystemExit silently, the others through threading.excepthook) and the test goes on)
         act["base"] = rng.choice(BASE_EXCEPTIONS)
     return act
 
@@ -355,8 +396,6 @@ def gen_script(rng, cfg, p_fail, p_gate, max_len=4, kinds=None):
             # the failing act sits inside an lcc.Thread (any kind: `Thread.run` logs whatever ends the thread) or
             # inside an attachment block (the exception leaves the block, then the unit)
             sc, in_thread = rng.choice(nested)
-            if in_thread:
-                f.pop("base", None)
             sc.insert(rng.randint(0, len(sc)), f)
         else:
             acts.insert(rng.randint(0, len(acts)), f)
@@ -395,7 +434,10 @@ def gen_project(rng, profile="basic"):
             setup = gen_prerun_script(rng, cfg, cfg["p_fail_fx"])
             teardown = gen_prerun_script(rng, cfg, cfg["p_fail_td"]) if gen else []
         else:
-            setup = gen_script(rng, cfg, cfg["p_fail_fx"], 0.4, 3)
+            if per_thread and "p_fail_ptfx" in cfg:
+                setup = gen_script(rng, cfg, cfg["p_fail_ptfx"], 0.4, 3, kinds=cfg.get("pt_kinds"))
+            else:
+                setup = gen_script(rng, cfg, cfg["p_fail_fx"], 0.4, 3)
             teardown = gen_script(rng, cfg, cfg["p_fail_td"], 0.25, 2) if gen else []
         fx = {"name": name, "names": [name, name + "b"] if rng.random() < 0.15 else None, "scope": scope,
               "per_thread": per_thread, "params": params, "gen": gen, "setup": setup, "teardown": teardown}
@@ -429,7 +471,7 @@ def gen_project(rng, profile="basic"):
                 name = cand
         used_test_names.append(name)
         fxs = pick(all_names, rng.choice([0, 0, 1, 1, 2, 3]))
-        if pt_names and rng.random() < (0.7 if cfg["need_perthread"] else 0.3):
+        if pt_names and rng.random() < cfg.get("p_use_pt", 0.7 if cfg["need_perthread"] else 0.3):
             n = rng.choice(pt_names)
             if n not in fxs:
                 fxs.append(n)
@@ -492,9 +534,10 @@ def gen_project(rng, profile="basic"):
     suites = []
     for _ in range(rng.choice([1, 1, 2, 2, 3])):
         if budget[0] > 0 or not suites:
-            suites.append(mk_suite(1, [x["name"] for x in suites] + list(used_suite_names)))
+            # (a top-level suite may be named like a SUB-suite of an earlier top-level suite: alpha, alpha.beta, beta)
+            suites.append(mk_suite(1, [x["name"] for x in suites]))
     if rng.random() < 0.04:
-        suites.append(dict(mk_suite(3, list(used_suite_names)), tests=[], suites=[]))      # a top-level suite without tests
+        suites.append(dict(mk_suite(3, [x["name"] for x in suites]), tests=[], suites=[]))      # a top-level suite without tests
     mode = "ties" if rng.random() < cfg["p_ties"] else "seq"
     for i, s in enumerate(suites):
         s["rank"] = 0 if mode == "ties" else i + 1
@@ -655,11 +698,33 @@ def features(project):
         for a in iter_acts(sc):
             if a["a"] == "raise" and a.get("sub"):
                 f.add("raise-subclass:" + a["kind"])
+            if a["a"] == "raise" and a.get("args"):
+                f.add("abort-args:" + a["args"])
+                f.add("abort-args-not-one-string")
+            if a["a"] == "step" and not a["d"].startswith("step "):
+                d = a["d"]
+                f.add("step-desc:" + ("empty" if d == "" else "blank" if not d.strip() else "multi-line" if "\n" in d else "long"))
+        for scr, in_thread in [(sc, False)] + list(_holders(sc)):
+            if in_thread:
+                for j, a in enumerate(scr):
+                    if a["a"] == "raise" and a.get("base"):
+                        f.add("base-exception-in-lcc-thread:" + a["base"])
+                        if any(b["a"] in ("log", "check", "url", "attach") for b in scr[:j]):
+                            f.add("base-exception-in-lcc-thread-after-a-record")
+        if unit[0] == "fx" and unit[2] == "setup" and fixtures_by_name(project)[unit[1]]["per_thread"]:
+            for a in sc:
+                if act_fails(a):
+                    f.add("fail-in-per_thread-fixture-setup:" + (a.get("kind") or ("error-log" if a["a"] == "log" else "failed-check")))
     names = [s["name"] for _, s, _ in iter_suites(project)]
     if len(set(names)) < len(names):
         f.add("suite-name-reused")
     if any("." in n for n in names):
         f.add("suite-name-dotted")
+    subnames = set()
+    for top in project["suites"]:
+        if top["name"] in subnames:
+            f.add("top-level-suite-named-like-earlier-sub-suite")
+        subnames.update(sp[-1] for sp, _, _ in iter_suites(top["suites"]))
     tnames = [p[-1] for p, *_ in iter_tests(project)]
     if len(set(tnames)) < len(tnames):
         f.add("test-name-reused")
@@ -836,11 +901,18 @@ def shrink_project(p):
                 sc2, j = locate(h2[k2], path)
                 sc2[j:j + 1] = copy.deepcopy(a["script"])
                 cands.append(q)
-            if a["a"] == "raise" and a.get("sub"):
+            for key in ("sub", "args", "base"):
+                if a["a"] == "raise" and a.get(key):
+                    q = copy.deepcopy(p)
+                    h2, k2 = _script_slots(q)[k]
+                    sc2, j = locate(h2[k2], path)
+                    del sc2[j][key]
+                    cands.append(q)
+            if a["a"] == "step" and not a["d"].startswith("step "):
                 q = copy.deepcopy(p)
                 h2, k2 = _script_slots(q)[k]
                 sc2, j = locate(h2[k2], path)
-                del sc2[j]["sub"]
+                sc2[j]["d"] = "step 1"
                 cands.append(q)
     # names: a dotted / reused name replaced by a fresh plain one (dependencies follow)
     for tp, t, sp, s_, _ in iter_tests(p):
